@@ -35,6 +35,12 @@ func fixedScenarios() []*Scenario {
 		{Metrics: true, Shuts: []int{bOK, bBlock}, Stops: []int{bOK}, Reqs: []Rel{{Kind: "H", J: 0}}},
 		// concurrent reloads
 		{NReload: 2, Stops: []int{bOK}, Rounds: []Round{{Trig: 0, Beh: []int{bOK, bErr}, CancelAt: -1, Pair: true}, {Trig: 0, CancelAt: -1}}},
+		// an OnReload hook that waits for its context when the stop signal arrives: started by SIGHUP, programmatically
+		{NReload: 2, Shuts: []int{bOK}, Stops: []int{bOK}, Rounds: []Round{{Trig: 1, Beh: []int{bOK, bBlock}, CancelAt: -1}, {Trig: 0, CancelAt: -1}}},
+		{Metrics: true, NReload: 2, Shuts: []int{bOK}, Stops: []int{bOK}, Reqs: []Rel{{Kind: "D"}}, Rounds: []Round{{Trig: 0, Beh: []int{bBlock, bOK}, CancelAt: -1}}},
+		// every way to panic, in OnStop hooks and in reload hooks (SIGHUP and programmatic)
+		{Stops: []int{bPanicNilPtr, bOK, bPanicNilMap, bPanicIndex, bOK, bPanicDivZero, bPanicAssert, bPanicErr, bPanicCustom, bOK}},
+		{NReload: 1, Stops: []int{bOK}, Rounds: []Round{{Trig: 1, Beh: []int{bPanicNilPtr}, CancelAt: -1}, {Trig: 0, Beh: []int{bPanicIndex}, CancelAt: -1}, {Trig: 1, Beh: []int{bPanicAssert}, CancelAt: -1}, {Trig: 0, Beh: []int{bPanicCustom}, CancelAt: -1}}},
 		// the two entry points mixed: SIGHUP during a programmatic Reload, Reload during a SIGHUP round
 		{NReload: 2, Shuts: []int{bOK}, Stops: []int{bOK}, Rounds: []Round{{Trig: 0, Beh: []int{bOK, bOK}, CancelAt: -1, Pair: true}, {Trig: 1, CancelAt: -1}, {Trig: 0, CancelAt: -1}}},
 		{NReload: 1, Stops: []int{bOK}, Rounds: []Round{{Trig: 1, CancelAt: -1, Pair: true}, {Trig: 0, Beh: []int{bErr}, CancelAt: -1}}},
@@ -69,6 +75,15 @@ func pickW(r *hx.Rand, vals []int, weights []int) int {
 	return vals[0]
 }
 
+// anyPanic replaces the plain panic by one of the ways to panic (plain value, error, custom type, five
+// genuine runtime errors): containment is promised for any of them.
+func anyPanic(r *hx.Rand, b int) int {
+	if b == bPanic {
+		return hx.Pick(r, panicKinds)
+	}
+	return b
+}
+
 func genHooks(r *hx.Rand, vals, weights []int) []int {
 	n := pickW(r, []int{0, 1, 2, 3}, []int{2, 3, 3, 2})
 	if r.Chance(1, 40) {
@@ -76,7 +91,7 @@ func genHooks(r *hx.Rand, vals, weights []int) []int {
 	}
 	out := make([]int, n)
 	for i := range out {
-		out[i] = pickW(r, vals, weights)
+		out[i] = anyPanic(r, pickW(r, vals, weights))
 	}
 	return out
 }
@@ -121,7 +136,7 @@ func genScenario(r *hx.Rand, tier string) *Scenario {
 			}
 			nb := r.Range(0, sc.NReload)
 			for k := 0; k < nb; k++ {
-				rd.Beh = append(rd.Beh, pickW(r, []int{bOK, bErr, bPanic}, []int{70, 15, 15}))
+				rd.Beh = append(rd.Beh, anyPanic(r, pickW(r, []int{bOK, bErr, bPanic, bBlock}, []int{66, 13, 14, 7})))
 			}
 			sc.Rounds = append(sc.Rounds, rd)
 		}
@@ -141,6 +156,13 @@ func genScenario(r *hx.Rand, tier string) *Scenario {
 					a.Trig, b.Trig = 0, 1
 				default:
 					a.Trig, b.Trig = 1, 0
+				}
+				for _, rd := range []*Round{a, b} {
+					for k, x := range rd.Beh {
+						if x == bBlock {
+							rd.Beh[k] = bOK
+						}
+					}
 				}
 				a.Pair = true
 				i++
